@@ -1013,6 +1013,19 @@ def mon_C14(walk, d):
             if f.get("res") == "err:ConnectionClosed" and prev is not None and prev.get("state") == "Connected":
                 # keep-alive timeout: only legal at or after the deadline of an unanswered ping
                 dl = prev.get("pingto")
+                # independent of the engine's own deadline: a PINGREQ of THIS connection must be outstanding (written and
+                # not answered since, or at least queued) - a deadline carried over from an earlier connection does not count
+                c = conn_at(d, i)
+                if c is not None:
+                    reqs = [p["first_step"] for p in c.packets if p["kind"] == "pingreq" and p["first_step"] <= i]
+                    resps = [j for j in range(c.open_step, i) if walk.notes[j].get("ack", {}).get("kind") == "pingresp"
+                             and resp_fields(walk.out[j])[0].get("res") == "ok"]
+                    wire_outstanding = bool(reqs) and (not resps or max(reqs) > max(resps))
+                    ps = snap_state(walk.out[[j for j in range(i) if walk.notes[j].get("kind") == "snap"][-1]])
+                    queued = ps is not None and any(x["kind"] == "pingreq" for x in ps["ops"].values())
+                    if not wire_outstanding and not queued:
+                        out.append(("live-peer-timed-out", f"keep-alive error at {note['t']} ms on connection {c.index} although no PINGREQ of this "
+                                                           f"connection is unanswered (PINGREQs written at steps {reqs}, PINGRESPs delivered at {resps})", i))
                 if dl in (None, "none"):
                     # the deadline may have been set by this very call? no: the check precedes the scheduling
                     out.append(("live-peer-timed-out", "keep-alive error without an outstanding PINGREQ", i))
@@ -1141,7 +1154,9 @@ def wf_monitor(walk, prefixes):
 
 
 WF_FAMILIES = {"C01": ("LOC", "TP", "TN", "WC", "QB"), "C06": ("P1", "P2", "P3"), "C04": ("PR", "PR2", "H2"),
-               "C07": ("H1", "D1"), "C09": ("F",), "C10": ("S",), "C16": ("C1",)}
+               "C07": ("H1", "D1"), "C09": ("F",), "C10": ("S",), "C16": ("C1",),
+               # an operation that survives being offline is queued for the next connection; one that does not was failed: never neither
+               "C15": ("LOC",)}
 
 
 def with_wf(prop, fn):
